@@ -24,7 +24,7 @@ import (
 
 // Spec identifies one scenario completely (together with the tree under test).
 type Spec struct {
-	Kind    string `json:"kind"` // replay | live | race | cut | stall | mid
+	Kind    string `json:"kind"`             // replay | live | race | cut | stall | mid
 	Second  bool   `json:"second,omitempty"` // cut: a second, fully logged-in operator is reset at the same moment
 	Seed    int64  `json:"seed"`
 	HistLen int    `json:"hist_len,omitempty"`
@@ -115,6 +115,9 @@ func (e *engine) getWorld(seed int64) (*world, error) {
 		return nil, err
 	}
 	e.c.Observe("worlds", 1)
+	if w.firstRemoved {
+		e.c.Observe("worlds-whose-oldest-log-entry-listener-was-removed", 1)
+	}
 	e.w = w
 	return w, nil
 }
@@ -149,7 +152,16 @@ func (w *world) prelude(rng *rand.Rand) error {
 	if _, err := w.opListenerAdd(handlers.AGENT_PIVOT_SMB, true, 2); err != nil {
 		return err
 	}
+	removeFirst := rng.Intn(2) == 0
 	steps := []func() error{
+		func() error {
+			// every second world: the listener whose announcement is the oldest entry goes
+			if removeFirst && w.first != "" {
+				w.firstRemoved = true
+				return w.opListenerRemove(w.first, 0)
+			}
+			return nil
+		},
 		func() error { return w.opListenerRemove(l2, 1) },
 		func() error { return w.opListenerError(l1) },
 		func() error { return w.opChat(0, false) },
